@@ -77,6 +77,68 @@ func (w *vBitW) single(only, alphabet int) {
 	}
 }
 
+// code-length code used by normal(): symbols 0,1,2 have 2-bit codes 00,01,10; 17 and 18 have 110,111.
+func (w *vBitW) clSym(sym int) {
+	emit := func(code, n int) { // prefix codes are written most significant bit first
+		for i := n - 1; i >= 0; i-- {
+			w.put(uint32(code>>uint(i))&1, 1)
+		}
+	}
+	switch sym {
+	case 0:
+		emit(0, 2)
+	case 1:
+		emit(1, 2)
+	case 2:
+		emit(2, 2)
+	case 17:
+		emit(6, 3)
+	case 18:
+		emit(7, 3)
+	}
+}
+
+// normal writes a normal (code-length coded) prefix code over `alphabet` symbols in which the symbols
+// listed in syms (ascending) have the given lengths (1 or 2) and all others length 0.
+func (w *vBitW) normal(alphabet int, syms []int, lens []int) {
+	w.put(0, 1) // normal code
+	w.put(1, 4) // 5 code-length code lengths, order 17, 18, 0, 1, 2
+	w.put(3, 3) // len(17) = 3
+	w.put(3, 3) // len(18) = 3
+	w.put(2, 3) // len(0)  = 2
+	w.put(2, 3) // len(1)  = 2
+	w.put(2, 3) // len(2)  = 2
+	w.put(0, 1) // max_symbol not transmitted
+	zeros := func(n int) {
+		for n > 0 {
+			switch {
+			case n >= 11:
+				k := n
+				if k > 138 {
+					k = 138
+				}
+				w.clSym(18)
+				w.put(uint32(k-11), 7)
+				n -= k
+			case n >= 3:
+				w.clSym(17)
+				w.put(uint32(n-3), 3)
+				n = 0
+			default:
+				w.clSym(0)
+				n--
+			}
+		}
+	}
+	at := 0
+	for i, sy := range syms {
+		zeros(sy - at)
+		w.clSym(lens[i])
+		at = sy + 1
+	}
+	zeros(alphabet - at)
+}
+
 func vSameDecode(data []byte, what string) {
 	img, err := DecodeVP8L(data)
 	pix, rw, rh, rerr := ref.VerifDecodeBytes(data)
@@ -102,7 +164,10 @@ func vSameDecode(data []byte, what string) {
 //	         LENGTH PREFIX 256+p (a tile made of one backward reference); q = distance prefix symbol.
 //	shape 1: 4x4, one group; green = normal single-symbol code on literal p (all pixels equal), so the
 //	         stream has no pixel bits at all.
-//	shape 2: 4x4, one group, colour cache of 2^q entries... (p unused)
+//	shape 2: 3x2, one group, colour cache of 2^q entries: every pixel is a symbolic choice between a
+//	         literal and a cache lookup (slot of the literal xor p).
+//	shape 3: 4x3, one group, green = normal code {two literals, length prefix p}, distance symbol q,
+//	         24 symbolic stream bits.
 func VerifH_C03_Entropy(shape, p, q int) {
 	w := &vBitW{}
 	// symbol values of the codes are fixed per shape (symbolic symbols would make the prefix-table
@@ -160,6 +225,51 @@ func VerifH_C03_Entropy(shape, p, q int) {
 		w.put(7, distExtra)
 		// slack so that a decoder that reads on does not hit the end of the stream first
 		w.put(uint32(verifapi.U32("tail")), 32)
+		w.put(uint32(verifapi.U32("tail")), 32)
+	case 2:
+		// 4x4, one group, colour cache of 2^q entries; green code = {literal g (code 0), cache index p (code 1)};
+		// every pixel is one symbolic bit: literal or cache lookup. R/B/A single-symbol codes.
+		const W, H = 3, 2
+		w.put(0x2f, 8)
+		w.put(W-1, 14)
+		w.put(H-1, 14)
+		w.put(1, 1)
+		w.put(0, 3)
+		w.put(0, 1) // no transform
+		w.put(1, 1) // colour cache
+		w.put(uint32(q), 4)
+		w.put(0, 1) // single group
+		g, r, b, a := sym("g"), sym("r"), sym("b"), sym("a")
+		// cache slot of the literal colour (the format's hash), so that lookups can hit it; p selects
+		// the slot looked up relative to it (0 = the literal's own slot)
+		slot := int((0x1e35a7bd*(a<<24|r<<16|g<<8|b))>>(32-uint(q))) ^ p
+		w.normal(256+24+(1<<uint(q)), []int{int(g), 256 + 24 + slot}, []int{1, 1})
+		w.simple1(r)
+		w.simple1(b)
+		w.simple1(a)
+		w.simple1(0)
+		w.put(uint32(verifapi.U16("choice_bits")), W*H)
+		w.put(uint32(verifapi.U32("tail")), 32)
+	case 3:
+		// 4x3, one group, green code = {literal g0 (00), literal g1 (01), length prefix p (1x)} with lengths
+		// 2,2,1; distance code single symbol q (plane code); pixels: symbolic bits.
+		const W, H = 4, 3
+		w.put(0x2f, 8)
+		w.put(W-1, 14)
+		w.put(H-1, 14)
+		w.put(1, 1)
+		w.put(0, 3)
+		w.put(0, 1)
+		w.put(0, 1)
+		w.put(0, 1)
+		g0 := int(sym("g0")) & 0x7f
+		g1 := g0 + 1 + int(sym("g1"))&0x3f
+		w.normal(280, []int{g0, g1, 256 + p}, []int{2, 2, 1})
+		w.simple1(sym("r"))
+		w.simple1(sym("b"))
+		w.simple1(sym("a"))
+		w.simple1(uint32(q))
+		w.put(uint32(verifapi.U32("pixel_bits")), 24)
 		w.put(uint32(verifapi.U32("tail")), 32)
 	case 1:
 		const W, H = 4, 4
